@@ -10,7 +10,7 @@ RULE = ("(a) peaks (tth in (0,180), eta, omega) x wavelength x wedge x chi x ome
         "[0, 2.4/lambda] with 15% inside the blind cone (|g_perp| <= 0.02|g|), a class with |g| > 2/lambda, g on the "
         "axis and g = 0, x wedge/chi on/off: validity flags against a closed-form Ewald reachability criterion and "
         "round trip of both solutions; (c) detector sets from C01's switch lattice x (tth<=60 deg, eta, omega, grain "
-        "position): projection onto the detector and back, and against the harness's own ray trace; (d) gv_general with a general unit axis and pre/post rotations: rotate_vectors / to_matrix / axis_from_matrix / k_to_g against Rodrigues matrices, g_to_k solutions against the Laue condition and the reachability criterion; non-trivial = "
+        "position): projection onto the detector and back through the Python and the compiled route, and against the harness's own ray trace; (d) gv_general with a general unit axis and pre/post rotations: rotate_vectors / to_matrix / axis_from_matrix / k_to_g against Rodrigues matrices, g_to_k solutions against the Laue condition and the reachability criterion; non-trivial = "
         "wedge!=0 and chi!=0, or a blind-cone / over-range vector in the batch, or t!=0 with a tilt; distinct = hash "
         "of the case")
 ASSUMPTIONS = ["g-vectors whose reachability measure |m| lies within 1e-9 of 1 (tangent to the Ewald sphere) may be "
@@ -266,6 +266,22 @@ def check_detector(case, rec=None):
             fails.append(fail("detector_roundtrip", "compute_tth_eta(compute_xyz_from_tth_eta(tth,eta)) differs: "
                               "dtth %.3g deta %.3g; pars %s" % (e1, e2, {k: round(v, 5) for k, v in p.items()}),
                               fn="compute_xyz_from_tth_eta"))
+    # the compiled route must invert the projection as well (omega as observed = omega_eff / omegasign)
+    ok, ct = guard(transform.Ctransform, dict(p))
+    if ok:
+        ok, geo = guard(lambda: ct.xyz2geometry(ct.sf2xyz(sc, fc), om / p["omegasign"], t[0], t[1], t[2]))
+        if ok:
+            geo = np.asarray(geo)
+            e1 = np.abs(geo[:, 0] - tth).max()
+            e2 = np.abs(O.eta_diff(geo[:, 1], eta) * np.sin(np.radians(tth))).max()
+            if not (e1 <= 1e-8 and e2 <= 1e-8):
+                fails.append(fail("detector_roundtrip_c", "Ctransform.xyz2geometry(sf2xyz(compute_xyz_from_tth_eta(tth,"
+                                  "eta))) differs: dtth %.3g deta %.3g; pars %s" %
+                                  (e1, e2, {k: round(v, 5) for k, v in p.items()}), fn="Ctransform"))
+        else:
+            fails.append(exc_failure("Ctransform round trip", geo))
+    else:
+        fails.append(exc_failure("Ctransform()", ct))
     # own ray trace
     P0 = O.geo_xyz_lab([0.0], [0.0], p)[:, 0]
     dS = O.geo_xyz_lab([1.0], [0.0], p)[:, 0] - P0
